@@ -564,6 +564,9 @@ class YP(object):
             pass
         finally:
             sys.setrecursionlimit(old_recursionlimit)
+            # an aborted search must not leave its bindings behind
+            if hasattr(query, 'close'):
+                query.close()
         return result
 
     def match_dynamic(self, name, args):
